@@ -720,4 +720,18 @@ example : HapAuth tableAead [] 0 [[1], [2]] ∧
 example : nonce? .n8 (2 ^ 64 - 1) ≠ none ∧ nonce? .n8 (2 ^ 64) = none ∧
     nonce? .n12 (2 ^ 96) = none := by decide
 
+/-- **A rejected MRP message costs that message only**: the receive counter has moved on by one
+    when the tag check fails, so the next genuine message (sealed with the sender's next counter)
+    is recovered exactly. -/
+theorem mrp_rejected_message_keeps_step (A : Aead) (hA : Laws A) (key : Bytes) (c : Nat) (bad data w : Bytes)
+    (c' : Nat) (n : Bytes) (hn : nonce? .n8 c = some n) (hbad : A.aopen key n [] bad = none)
+    (h : mrpSend A key true (c + 1) data = .ok (w, c')) :
+    mrpHandle A key true c bad = (.error .invalidTag, c + 1) ∧
+    ∃ ct, w = writeVarint ct.length ++ ct ∧ mrpHandle A key true (c + 1) ct = (.ok data, c') := by
+  refine ⟨?_, mrp_roundtrip A hA key true (c + 1) data w c' h⟩
+  simp [mrpHandle, decrypt, hn, hbad]
+
+example : nonce? .n8 0 = some (List.replicate 12 0) ∧
+    toyAead.aopen [1] (List.replicate 12 0) [] (List.replicate 17 0) = none := by decide +kernel
+
 end PyatvModel.Props.C07
